@@ -608,7 +608,7 @@ pub fn render_log(doc: &LogDoc, choices: &[u8], fancy: bool, junk: bool) -> Rend
         1 => nlines / 2,
         _ => nlines,
     };
-    let mut emit_solution = |ch: &mut Choices, out: &mut Out, last: bool| {
+    let emit_solution = |ch: &mut Choices, out: &mut Out, last: bool| {
         if let Some(s) = doc.solution {
             out.tok(b"s", Role::Keyword, 0);
             out.raw(b" ");
@@ -816,7 +816,7 @@ pub fn render_aiger(doc: &AigDoc) -> Rendered {
     out.raw(b"\n");
     out.end_item();
     item += 1;
-    let mut lit_line = |out: &mut Out, item: &mut usize, v: u64| {
+    let lit_line = |out: &mut Out, item: &mut usize, v: u64| {
         out.tok(v.to_string().as_bytes(), Role::Num, *item);
         out.raw(b"\n");
         out.end_item();
@@ -1025,7 +1025,7 @@ pub fn aig_doc_strategy(lit: u8, binary: bool) -> impl Strategy<Value = AigDoc> 
                 };
                 ands.push((Some(out), i0, i1));
             }
-            let mut lits = |n: usize, pick: &mut dyn FnMut(u64) -> u64| -> Vec<u64> {
+            let lits = |n: usize, pick: &mut dyn FnMut(u64) -> u64| -> Vec<u64> {
                 (0..n).map(|_| any_lit(pick)).collect()
             };
             let outputs = lits(no, &mut pick);
